@@ -102,12 +102,16 @@ def fn_items(path):
                 end_tok = s[-1]
             end_line = src.count('\n', 0, toks[end_tok].start) + 1
             tags = None
-            for ln in range(start_line - 1, max(0, start_line - 6), -1):
-                if ln in tag_lines:
-                    tags = tag_lines[ln]
-                    break
             out.append((name, start_line, end_line, mode, tags))
-    return out
+    # a //@tags line applies to the next fn item after it
+    starts = sorted(o[1] for o in out)
+    res = []
+    for (name, a, b, mode, _t) in out:
+        prev_starts = [x for x in starts if x < a]
+        lo = prev_starts[-1] if prev_starts else 0
+        cands = [ln for ln in tag_lines if lo < ln < a]
+        res.append((name, a, b, mode, tag_lines[max(cands)] if cands else None))
+    return res
 
 
 def classify(msg):
